@@ -15,18 +15,21 @@
 EXTENDS ContourOps
 
 CONSTANTS MinN, MaxN,  \* contours of MinN..MaxN points (the cubic extrapolations of the real code need a few points beyond the reference)
-          Radius       \* wall_point_exclude_radius in position units
+          Radius,      \* wall_point_exclude_radius in position units
+          Thick        \* thicknesses of the wall where the surface meets it: 0 = solid beyond the first crossing; t > 0 = a plate (baffle) of
+                       \* thickness t, behind which the surface is inside the vessel again (a second crossing at distance t)
 
 VARIABLES pts,         \* positions of the points
           sI, eI,      \* startInd, endInd as stored
           lw, uw,      \* is there a wall at the lower / upper end
-          wlo, whi,    \* where the wall crosses
+          wlo, whi,    \* where the wall crosses (the face on the side of the domain)
+          tlo, thi,    \* thickness of a plate-like wall there (0: solid)
           lidx, uidx,  \* lower_intersect_index, upper_intersect_index
           stage,       \* "findLower" | "findUpper" | "insertLower" | "insertUpper" | "done" | "failed"
           startLbl, endLbl,   \* ghost: position of the point the start / end index designated when the contour was built
           nlo, nhi            \* ghost: how many points temporaryExtend added
 
-vars == <<pts, sI, eI, lw, uw, wlo, whi, lidx, uidx, stage, startLbl, endLbl, nlo, nhi>>
+vars == <<pts, sI, eI, lw, uw, wlo, whi, tlo, thi, lidx, uidx, stage, startLbl, endLbl, nlo, nhi>>
 
 
 --------------------------------------------------------------------------
@@ -38,7 +41,11 @@ Set(c) == pts' = c.p /\ sI' = c.s /\ eI' = c.e
 Step10 == 10
 \* lower end: scan segments (i, i-1) from starti down to 1; first hit gives index i-1; otherwise extend below until (0, 1) is hit
 LowerStart == IF uw THEN Len(pts) \div 2 ELSE Len(pts) - 1
-LowerHits == {i \in 1..LowerStart : Between(pts[i + 1], wlo, pts[i])}          \* 0-based i: pts[i] is pts[i+1] 1-based
+\* a segment meets the wall where it crosses the front face or, for a plate, its back face; the scan runs from the domain outwards, so the
+\* first hit is the face on the side of the domain (seeded change C11_lower_search_from_far_end scanned from the far end)
+CrossLo(a, b) == Between(a, wlo, b) \/ (tlo > 0 /\ Between(a, wlo - tlo, b))
+CrossHi(a, b) == Between(a, whi, b) \/ (thi > 0 /\ Between(a, whi + thi, b))
+LowerHits == {i \in 1..LowerStart : CrossLo(pts[i + 1], pts[i])}          \* 0-based i: pts[i] is pts[i+1] 1-based
 FindLower ==
   /\ stage = "findLower"
   /\ IF ~lw THEN stage' = "findUpper" /\ UNCHANGED <<pts, sI, eI, lidx, nlo>>
@@ -48,12 +55,12 @@ FindLower ==
      ELSE IF nlo >= 4 THEN stage' = "failed" /\ UNCHANGED <<pts, sI, eI, lidx, nlo>>     \* (max_extend = 100 in the code)
      ELSE \* temporaryExtend(extend_lower=1); then test (contour[1], contour[0]); lower_intersect_index stays 0
           /\ Set(PExtendLower(Cur, pts[1] - Step10)) /\ nlo' = nlo + 1
-          /\ IF Between(pts[1] - Step10, wlo, pts[1]) THEN lidx' = 0 /\ stage' = "findUpper"
+          /\ IF CrossLo(pts[1] - Step10, pts[1]) THEN lidx' = 0 /\ stage' = "findUpper"
              ELSE UNCHANGED <<lidx, stage>>
-  /\ UNCHANGED <<lw, uw, wlo, whi, uidx, startLbl, endLbl, nhi>>
+  /\ UNCHANGED <<lw, uw, wlo, whi, tlo, thi, uidx, startLbl, endLbl, nhi>>
 
 UpperStart == IF lw THEN Len(pts) \div 2 ELSE 0
-UpperHits == {i \in UpperStart..(Len(pts) - 2) : Between(pts[i + 1], whi, pts[i + 2])}
+UpperHits == {i \in UpperStart..(Len(pts) - 2) : CrossHi(pts[i + 1], pts[i + 2])}
 FindUpper ==
   /\ stage = "findUpper"
   /\ IF ~uw THEN stage' = "insertLower" /\ UNCHANGED <<pts, sI, eI, uidx, nhi>>
@@ -62,9 +69,9 @@ FindUpper ==
             /\ stage' = "insertLower" /\ UNCHANGED <<pts, sI, eI, nhi>>
      ELSE IF nhi >= 4 THEN stage' = "failed" /\ UNCHANGED <<pts, sI, eI, uidx, nhi>>
      ELSE /\ Set(PExtendUpper(Cur, pts[Len(pts)] + Step10)) /\ nhi' = nhi + 1
-          /\ IF Between(pts[Len(pts)], whi, pts[Len(pts)] + Step10) THEN uidx' = -2 /\ stage' = "insertLower"
+          /\ IF CrossHi(pts[Len(pts)], pts[Len(pts)] + Step10) THEN uidx' = -2 /\ stage' = "insertLower"
              ELSE UNCHANGED <<uidx, stage>>
-  /\ UNCHANGED <<lw, uw, wlo, whi, lidx, startLbl, endLbl, nlo>>
+  /\ UNCHANGED <<lw, uw, wlo, whi, tlo, thi, lidx, startLbl, endLbl, nlo>>
 
 --------------------------------------------------------------------------
 (* addPointAtWallToContours *)
@@ -79,7 +86,7 @@ InsertLower ==
           /\ pts' = c.p /\ eI' = c.e /\ sI' = lidx + 1 /\ lidx' = lidx + 1
           /\ uidx' = IF uw /\ uidx >= 0 THEN uidx + 1 ELSE uidx
   /\ stage' = "insertUpper"
-  /\ UNCHANGED <<lw, uw, wlo, whi, startLbl, endLbl, nlo, nhi>>
+  /\ UNCHANGED <<lw, uw, wlo, whi, tlo, thi, startLbl, endLbl, nlo, nhi>>
 
 InsertUpper ==
   /\ stage = "insertUpper"
@@ -92,7 +99,7 @@ InsertUpper ==
               u2 == IF uidx >= 0 THEN uidx + 1 ELSE uidx IN
           /\ pts' = c.p /\ sI' = c.s /\ eI' = u2 /\ uidx' = u2
   /\ stage' = "done"
-  /\ UNCHANGED <<lw, uw, wlo, whi, lidx, startLbl, endLbl, nlo, nhi>>
+  /\ UNCHANGED <<lw, uw, wlo, whi, tlo, thi, lidx, startLbl, endLbl, nlo, nhi>>
 
 Next == FindLower \/ FindUpper \/ InsertLower \/ InsertUpper
 
@@ -101,7 +108,7 @@ Next == FindLower \/ FindUpper \/ InsertLower \/ InsertUpper
 Offsets == {1, 5, 9}        \* where in a 10-wide gap the wall crosses: 1 / 9 are within Radius of a point, 5 is not
 Init ==
   \E n \in MinN..MaxN : \E l, u \in BOOLEAN : \E s0 \in {0, 1} : \E e0 \in {n - 1, n - 2, -1, -2} :
-  \E gl \in -3..(n - 2) : \E gu \in 0..(n + 1) : \E ol, ou \in Offsets :
+  \E gl \in -3..(n - 2) : \E gu \in 0..(n + 1) : \E ol, ou \in Offsets : \E tk \in Thick :
     /\ (l \/ u) /\ ~(l /\ u)             \* wall.X and X.wall; wall.wall does not occur in the supported topologies (and the code's
                                           \* scan start `len(contour // 2)' raises TypeError for it - recorded in DESIGN.md)
     /\ pts = [k \in 1..n |-> 10 * (k - 1)]
@@ -109,6 +116,7 @@ Init ==
     /\ lw = l /\ uw = u
     /\ wlo = IF l THEN 10 * gl + ol ELSE -1000
     /\ whi = IF u THEN 10 * gu + ou ELSE 1000
+    /\ tlo = (IF l THEN tk ELSE 0) /\ thi = (IF u THEN tk ELSE 0)
     \* the in-domain part keeps at least four of the contour's points (with fewer the cubic extrapolation of the real code's
     \* FineContour.extend raises IndexError / ValueError: an explicit refusal, outside this model)
     /\ (l => 10 * gl + ol < At(pts, e0) - 30)
@@ -133,7 +141,7 @@ OtherEndKept == Done => ((~lw => At(pts, sI) = startLbl) /\ (~uw => At(pts, eI) 
 InDomainBetweenTargets == Done =>
   \A k \in 1..Len(pts) :
     /\ (Norm(pts, sI) < k /\ k < Norm(pts, eI)) => ((lw => pts[k] > wlo) /\ (uw => pts[k] < whi))
-    /\ (lw /\ k < Norm(pts, sI)) => pts[k] < wlo
+    /\ (lw /\ k < Norm(pts, sI)) => pts[k] < wlo          \* (beyond the face on the domain side; behind a plate the surface re-enters the vessel)
     /\ (uw /\ k > Norm(pts, eI)) => pts[k] > whi
 NeverFails == stage # "failed"
 \* at most one point is removed by the `close to the wall' replacement, none otherwise
